@@ -110,7 +110,10 @@ def main(argv=None):
             mod.run(ctx, n)
         else:
             ctx.notes.append('driver not built: ports skipped, oracle search only')
-        return ctx.finish(search=lambda: mod.search(ctx, max(n, 5000)))
+        # the failing-input search after a broken obligation; VERIF_SEARCH_SCALE < 1 shortens it (used by tools/matrix.py
+        # for the checks of *other* properties than the one a seeded change was written against)
+        scale = float(os.environ.get('VERIF_SEARCH_SCALE', '1') or 1)
+        return ctx.finish(search=lambda: mod.search(ctx, max(50, int(max(n, 5000) * scale))))
     except core.InfraError as e:
         print('INFRA: %s' % e, file=sys.stderr)
         return 2
